@@ -115,7 +115,7 @@ package sqlite
 //@ func (s *state) copyRows(from *schema.Table, to *schema.Table, changes []schema.Change) (insert bool, err error)
 //@   requires s != nil && from != nil && to != nil
 //@   requires (forall p int :: 0 <= p && p < len(to.Columns) ==> to.Columns[p] != nil && to.Columns[p].Type != nil)
-//@   requires (forall c schema.Change :: gvcColChangeOK(c))
+//@   requires (forall k int :: 0 <= k && k < len(changes) ==> gvcColChangeOK(changes[k]))
 //@   modifies everything
 //@   ensures rows-are-copied-if-a-column-survives: err == nil ==> (forall p int :: 0 <= p && p < len(to.Columns) &&
 //@           !gvcGenerated(to.Columns[p]) && !gvcAnyAdds(changes, len(changes), to.Columns[p].Name) ==> insert)
